@@ -104,23 +104,35 @@ theorem maxBytes_fwd {e : Env} (h : FwdByte e) : e.maxBytes = min (e.buf.size - 
   unfold Env.maxBytes Env.fwdSize
   simp only [h.notBack, Bool.false_eq_true, if_false, cs_one h, Nat.mod_one, Nat.sub_zero]
 
-theorem consumeOk_fwd {e : Env} (h : FwdByte e) (bm : Nat) (f : Fiber) :
-    consumeOk e bm f = (decide (bm < e.maxBytes) && consumeTest e.code e.fl f.ip e.buf 1 ((e.start + bm : Nat) : Int)) := by
-  unfold consumeOk
-  rw [cs_one h, inp_fwd h]
-  have : decide (bm ≥ e.maxBytes) = !decide (bm < e.maxBytes) := by
-    by_cases hh : bm < e.maxBytes <;> simp [hh] <;> omega
-  simp [this]
+/-- a backward run in byte mode -/
+structure BwdByte (e : Env) : Prop where
+  notWide : e.fl.wide = false
+  back : e.fl.backwards = true
+  startIn : e.start ≤ e.buf.size
 
-/-- the specification's one-character test holds at position start + bm, inside the scan window: the instruction accepts -/
-theorem consume_of_charOk {e : Env} (h : FwdByte e) {bm : Nat} {f : Fiber} {t : UInt8 → Bool} (hlt : bm < e.maxBytes)
-    (hc : charOk (specFlags e.fl) e.buf t (e.start + bm) = true)
-    (htest : consumeTest e.code e.fl f.ip e.buf 1 ((e.start + bm : Nat) : Int) = t (byteAt e.buf ((e.start + bm : Nat) : Int))) :
+theorem cs_one_b {e : Env} (h : BwdByte e) : e.cs = 1 := by simp [Env.cs, h.notWide]
+
+theorem maxBytes_bwd {e : Env} (h : BwdByte e) : e.maxBytes = min e.start 1024 := by
+  unfold Env.maxBytes Env.bwdSize
+  simp only [h.back, if_true, cs_one_b h, Nat.mod_one, Nat.sub_zero]
+
+theorem inp_bwd {e : Env} (h : BwdByte e) {bm : Nat} (hlt : bm < e.maxBytes) : e.inp bm = ((e.start - 1 - bm : Nat) : Int) := by
+  have := maxBytes_bwd h
+  unfold Env.inp
+  simp only [h.back, if_true, cs_one_b h]
+  omega
+
+/-- the specification's one-character test holds at the byte the fiber reads, inside the scan window: the instruction accepts -/
+theorem consume_of_charOk {e : Env} (hcs : e.cs = 1) {bm P : Nat} (hinp : e.inp bm = (P : Int)) {f : Fiber} {t : UInt8 → Bool}
+    (hlt : bm < e.maxBytes) (hc : charOk (specFlags e.fl) e.buf t P = true)
+    (htest : consumeTest e.code e.fl f.ip e.buf 1 (P : Int) = t (byteAt e.buf (P : Int))) :
     consumeOk e bm f = true := by
-  rw [consumeOk_fwd h, htest]
+  unfold consumeOk
+  rw [hcs, hinp, htest]
   rw [charOk_narrow rfl] at hc
-  simp only [Bool.and_eq_true, decide_eq_true_eq] at hc ⊢
-  exact ⟨hlt, hc.2⟩
+  simp only [Bool.and_eq_true, decide_eq_true_eq] at hc
+  have : decide (bm ≥ e.maxBytes) = false := by simp; omega
+  simp [this, hc.2]
 
 theorem test_lit {e : Env} {ip : Nat} {b : UInt8} (hop : u8 e.code ip = OP_LITERAL) (harg : u8 e.code (ip + 1) = b.toNat) (p : Int) :
     consumeTest e.code e.fl ip e.buf 1 p = testLit (specFlags e.fl) b (byteAt e.buf p) := by
@@ -323,8 +335,23 @@ theorem AccE.mono {s s' n : Nat} {f : Fiber} {bm : Nat} (h : AccE e s' n f bm) (
 theorem AccE.top {s n : Nat} {f : Fiber} {bm : Nat} (h : AccE e s n f bm) : AccU e n f bm :=
   fun F l a ex' => h F [] l a ex' (fun i hi => by cases hi)
 
-/-- a single-byte instruction that accepts the byte at start + q, followed by an accepting path -/
-theorem acc_leaf (h : FwdByte e) {a len q n s : Nat} (h1 : ¬ isCtl (u8 e.code a))
+/-- what a way of reading the input (forwards from the start position / backwards from it) has to provide: `M r q t`,
+    "r matches between q and t matched bytes", decomposes along the pattern, and a one-byte match inside the scan window
+    makes the instruction accept -/
+structure CDir (e : Env) where
+  M : Re → Nat → Nat → Prop
+  cs1 : e.cs = 1
+  leaf : ∀ {r : Re} {a q t : Nat} {f : Fiber}, HexG r → LeafCode e.code r a → f.ip = a → M r q t → t ≤ e.maxBytes →
+    t = q + 1 ∧ consumeOk e q f = true
+  any : ∀ {q t : Nat} {f : Fiber}, (u8 e.code f.ip = OP_REPEAT_ANY_GREEDY ∨ u8 e.code f.ip = OP_REPEAT_ANY_UNGREEDY) → M .any q t →
+    t ≤ e.maxBytes → t = q + 1 ∧ consumeOk e q f = true
+  jump : ∀ {lo hi : Nat} {g : Bool} {q t : Nat}, M (.rangeAny lo hi g) q t →
+    ∃ k, lo ≤ k ∧ k ≤ hi ∧ t = q + k ∧ ∀ i, i < k → M .any (q + i) (q + i + 1)
+  cat : ∀ {x y : Re} {q t : Nat}, M (.cat x y) q t → ∃ u, q ≤ u ∧ u ≤ t ∧ M x q u ∧ M y u t
+  alt : ∀ {x y : Re} {q t : Nat}, M (.alt x y) q t → M x q t ∨ M y q t
+
+/-- a single-byte instruction that accepts the byte at q, followed by an accepting path -/
+theorem acc_leaf (hcs : e.cs = 1) {a len q n s : Nat} (h1 : ¬ isCtl (u8 e.code a))
     (h2 : ¬ (u8 e.code a = OP_REPEAT_ANY_GREEDY ∨ u8 e.code a = OP_REPEAT_ANY_UNGREEDY)) (hc : isConsuming (u8 e.code a) = true)
     (hlen : sizeOfInstr (u8 e.code a) = len) (hok : consumeOk e q { ip := a } = true) (hK : AccE e s n { ip := a + len } (q + 1)) :
     AccE e s (n + 1) { ip := a } q := by
@@ -335,152 +362,88 @@ theorem acc_leaf (h : FwdByte e) {a len q n s : Nat} (h1 : ¬ isCtl (u8 e.code a
   have hadv : advance e.code { ip := a } = { ip := a + len } := by
     unfold advance
     rw [if_neg h2, hlen]
-  rw [hadv, cs_one h]
+  rw [hadv, hcs]
   exact hK.top
 
-theorem path_len {fl : Flags} (hw : fl.wide = false) {buf : Bytes} {t : UInt8 → Bool} : ∀ {j p q : Nat}, Path (step fl buf t) j p q → q = p + j
-  | _, _, _, .nil => rfl
-  | _, _, _, .cons hy hp => by
-    have h1 := (mem_step.1 hy).2
-    have h2 := path_len hw hp
-    have : fl.cs = 1 := by simp [Flags.cs, hw]
-    omega
-
 /-- a jump: `j` more bytes are taken by the spinning fiber, then the continuing branch is an accepting path -/
-theorem acc_jump (h : FwdByte e) {a lo hi s : Nat} (hop : u8 e.code a = OP_REPEAT_ANY_GREEDY ∨ u8 e.code a = OP_REPEAT_ANY_UNGREEDY)
+theorem acc_jump (D : CDir e) {a lo hi s : Nat} (hop : u8 e.code a = OP_REPEAT_ANY_GREEDY ∨ u8 e.code a = OP_REPEAT_ANY_UNGREEDY)
     (hlo : u16 e.code (a + 1) = lo) (hhi : u16 e.code (a + 3) = hi) {n t : Nat} (ht : t ≤ e.maxBytes)
-    (hK : AccE e s n { ip := a + 5 } t) : ∀ (j k q : Nat), k + j ≤ hi → lo ≤ k + j →
-      Path (step (specFlags e.fl) e.buf (testAny (specFlags e.fl))) j (e.start + q) (e.start + t) → AccE e s (n + j) (spinF a k) q
-  | 0, k, q, h1, h2, hp => by
-    have : q = t := by have := hp.zero_eq; omega
+    (hK : AccE e s n { ip := a + 5 } t) : ∀ (j k q : Nat), k + j ≤ hi → lo ≤ k + j → t = q + j →
+      (∀ i, i < j → D.M .any (q + i) (q + i + 1)) → AccE e s (n + j) (spinF a k) q
+  | 0, k, q, h1, h2, hq, _ => by
+    have : q = t := by omega
     subst this
     intro F ex l b ex' hex hs
     obtain ⟨F', ex0, l', b', ex1, hex0, hs', hsub⟩ := (sync_spin_inv hop hlo hhi k hs).2 h2
     obtain ⟨g, hg, hacc⟩ := hK F' ex0 l' b' ex1 (by rcases hex0 with h0 | h0 <;> rw [h0] <;> first | exact hex | exact fun i hi => by cases hi) hs'
     exact ⟨g, hsub g hg, hacc⟩
-  | j + 1, k, q, h1, h2, hp => by
+  | j + 1, k, q, h1, h2, hq, hany => by
     intro F ex l b ex' _ hs
     have hmem := ((sync_spin_inv hop hlo hhi k hs).1 (by omega)).1
-    cases hp with
-    | cons hy hp' =>
-      obtain ⟨hch, hy'⟩ := mem_step.1 hy
-      have hcs : (specFlags e.fl).cs = 1 := rfl
-      rw [hy', hcs] at hp'
-      have hlen := path_len (fl := specFlags e.fl) rfl hp'
-      have hp2 : Path (step (specFlags e.fl) e.buf (testAny (specFlags e.fl))) j (e.start + (q + 1)) (e.start + t) := by
-        rw [← Nat.add_assoc]; exact hp'
-      have ih := acc_jump h hop hlo hhi ht hK j (k + 1) (q + 1) (by omega) (by omega) hp2
-      refine ⟨_, hmem, ?_, ?_, ?_⟩
-      · show isConsuming (u8 e.code a) = true
-        rcases hop with hh | hh <;> rw [hh] <;> decide
-      · exact consume_of_charOk h (f := spinF a (k + 1)) (by omega) hch (test_anyop (.inr hop) _)
-      · have hadv : advance e.code (spinF a (k + 1)) = spinF a (k + 1) := by
-          unfold advance
-          rw [if_pos (show u8 e.code (spinF a (k + 1)).ip = _ ∨ u8 e.code (spinF a (k + 1)).ip = _ from hop)]
-        rw [hadv, cs_one h]
-        exact ih.top
+    have h0 := hany 0 (by omega)
+    obtain ⟨_, hok⟩ := D.any (f := spinF a (k + 1)) hop h0 (by omega)
+    have ih := acc_jump D hop hlo hhi ht hK j (k + 1) (q + 1) (by omega) (by omega) (by omega)
+      (fun i hi => by have := hany (i + 1) (by omega); rwa [show q + (i + 1) = q + 1 + i by omega] at this)
+    refine ⟨_, hmem, ?_, hok, ?_⟩
+    · show isConsuming (u8 e.code a) = true
+      rcases hop with hh | hh <;> rw [hh] <;> decide
+    · have hadv : advance e.code (spinF a (k + 1)) = spinF a (k + 1) := by
+        unfold advance
+        rw [if_pos (show u8 e.code (spinF a (k + 1)).ip = _ ∨ u8 e.code (spinF a (k + 1)).ip = _ from hop)]
+      rw [hadv, D.cs1]
+      exact ih.top
 
 theorem spinF_zero (a : Nat) : spinF a 0 = { ip := a } := rfl
 
-/-- the path lemma: a match of a hex pattern from start + q to start + t, followed by an accepting path from the end of
+/-- the path lemma: a match of a hex pattern between q and t matched bytes, followed by an accepting path from the end of
     its code at t, is an accepting path from the beginning of its code at q -/
-theorem acc_hex (h : FwdByte e) {r : Re} (hr : HexG r) : ∀ {a b q t n s : Nat}, Seg e.code (lower r) a b → IdOK e.code r a s →
-    Re.Matches (specFlags e.fl) e.buf r (e.start + q) (e.start + t) → t ≤ e.maxBytes → AccE e (s + nsp r) n { ip := b } t →
-    AccE e s (n + (t - q)) { ip := a } q := by
-  have hcs : (specFlags e.fl).cs = 1 := rfl
+theorem acc_hex (D : CDir e) {r : Re} (hr : HexG r) : ∀ {a b q t n s : Nat}, Seg e.code (lower r) a b → IdOK e.code r a s →
+    D.M r q t → t ≤ e.maxBytes → AccE e (s + nsp r) n { ip := b } t → AccE e s (n + (t - q)) { ip := a } q := by
+  have leafCase : ∀ {r : Re}, HexG r → lower r = .leaf r → nsp r = 0 → ∀ {a b q t n s : Nat}, Seg e.code (lower r) a b → IdOK e.code r a s →
+      D.M r q t → t ≤ e.maxBytes → AccE e (s + nsp r) n { ip := b } t → AccE e s (n + (t - q)) { ip := a } q := by
+    intro r hl hlow hn a b q t n s hseg _ hm ht hK
+    rw [hlow] at hseg
+    rw [hn] at hK
+    cases hseg with | leaf hc =>
+    obtain ⟨f1, f2, _, f4⟩ := leaf_facts hc
+    obtain ⟨rfl, hok⟩ := D.leaf (f := { ip := a }) hl hc rfl hm ht
+    rw [show q + 1 - q = 1 by omega]
+    rcases f4 with ⟨g1, g2⟩ | ⟨g1, g2⟩
+    · exact acc_leaf D.cs1 f1 f2 g1 g2 hok hK
+    · exfalso
+      cases hl with
+      | byte c => cases hc with | lit hop _ => rw [hop] at g1; exact absurd g1 (by decide)
+      | wild => cases hc with | any hop => rw [hop] at g1; exact absurd g1 (by decide)
+      | mask v m => cases hc with | masked hop _ _ => rw [hop] at g1; exact absurd g1 (by decide)
+      | notByte c => cases hc with | notLit hop _ => rw [hop] at g1; exact absurd g1 (by decide)
+      | notMask v m => cases hc with | maskedNot hop _ _ => rw [hop] at g1; exact absurd g1 (by decide)
+      | jump _ _ _ _ => cases hc
+      | seq _ _ => cases hc
+      | alt _ _ _ => cases hc
   induction hr with
-  | byte c =>
-    intro a b q t n s hseg _ hm ht hK
-    cases hseg with | leaf hc =>
-    obtain ⟨f1, f2, _, f4⟩ := leaf_facts hc
-    cases hc with | lit hop harg =>
-    have hm' := mem_step.1 ((ends_iff_Matches _ _ _ _ _).2 hm)
-    obtain ⟨hch, hq⟩ := hm'
-    rw [hcs] at hq
-    have : t = q + 1 := by omega
-    subst this
-    rw [show q + 1 - q = 1 by omega]
-    rcases f4 with ⟨g1, g2⟩ | ⟨g1, _⟩
-    · exact acc_leaf h f1 f2 g1 g2 (consume_of_charOk h (f := { ip := a }) (by omega) hch (test_lit hop harg _)) hK
-    · rw [hop] at g1; exact absurd g1 (by decide)
-  | wild =>
-    intro a b q t n s hseg _ hm ht hK
-    cases hseg with | leaf hc =>
-    obtain ⟨f1, f2, _, f4⟩ := leaf_facts hc
-    cases hc with | any hop =>
-    have hm' := mem_step.1 ((ends_iff_Matches _ _ _ _ _).2 hm)
-    obtain ⟨hch, hq⟩ := hm'
-    rw [hcs] at hq
-    have : t = q + 1 := by omega
-    subst this
-    rw [show q + 1 - q = 1 by omega]
-    rcases f4 with ⟨g1, g2⟩ | ⟨g1, _⟩
-    · exact acc_leaf h f1 f2 g1 g2 (consume_of_charOk h (f := { ip := a }) (by omega) hch (test_anyop (.inl hop) _)) hK
-    · rw [hop] at g1; exact absurd g1 (by decide)
-  | mask v m =>
-    intro a b q t n s hseg _ hm ht hK
-    cases hseg with | leaf hc =>
-    obtain ⟨f1, f2, _, f4⟩ := leaf_facts hc
-    cases hc with | masked hop harg1 harg2 =>
-    have hm' := mem_step.1 ((ends_iff_Matches _ _ _ _ _).2 hm)
-    obtain ⟨hch, hq⟩ := hm'
-    rw [hcs] at hq
-    have : t = q + 1 := by omega
-    subst this
-    rw [show q + 1 - q = 1 by omega]
-    rcases f4 with ⟨g1, g2⟩ | ⟨g1, _⟩
-    · exact acc_leaf h f1 f2 g1 g2 (consume_of_charOk h (f := { ip := a }) (by omega) hch (test_masked hop harg1 harg2 _)) hK
-    · rw [hop] at g1; exact absurd g1 (by decide)
-  | notByte c =>
-    intro a b q t n s hseg _ hm ht hK
-    cases hseg with | leaf hc =>
-    obtain ⟨f1, f2, _, f4⟩ := leaf_facts hc
-    cases hc with | notLit hop harg =>
-    have hm' := mem_step.1 ((ends_iff_Matches _ _ _ _ _).2 hm)
-    obtain ⟨hch, hq⟩ := hm'
-    rw [hcs] at hq
-    have : t = q + 1 := by omega
-    subst this
-    rw [show q + 1 - q = 1 by omega]
-    rcases f4 with ⟨g1, g2⟩ | ⟨g1, _⟩
-    · exact acc_leaf h f1 f2 g1 g2 (consume_of_charOk h (f := { ip := a }) (by omega) hch (test_notLit hop harg _)) hK
-    · rw [hop] at g1; exact absurd g1 (by decide)
-  | notMask v m =>
-    intro a b q t n s hseg _ hm ht hK
-    cases hseg with | leaf hc =>
-    obtain ⟨f1, f2, _, f4⟩ := leaf_facts hc
-    cases hc with | maskedNot hop harg1 harg2 =>
-    have hm' := mem_step.1 ((ends_iff_Matches _ _ _ _ _).2 hm)
-    obtain ⟨hch, hq⟩ := hm'
-    rw [hcs] at hq
-    have : t = q + 1 := by omega
-    subst this
-    rw [show q + 1 - q = 1 by omega]
-    rcases f4 with ⟨g1, g2⟩ | ⟨g1, _⟩
-    · exact acc_leaf h f1 f2 g1 g2 (consume_of_charOk h (f := { ip := a }) (by omega) hch (test_maskedNot hop harg1 harg2 _)) hK
-    · rw [hop] at g1; exact absurd g1 (by decide)
+  | byte c => exact leafCase (.byte c) rfl rfl
+  | wild => exact leafCase .wild rfl rfl
+  | mask v m => exact leafCase (.mask v m) rfl rfl
+  | notByte c => exact leafCase (.notByte c) rfl rfl
+  | notMask v m => exact leafCase (.notMask v m) rfl rfl
   | jump lo hi _ _ =>
     intro a b q t n s hseg _ hm ht hK
     cases hseg with | jump hop hlo hhi _ =>
-    obtain ⟨k, k1, k2, hp⟩ := path_of_rangeAny hm lo hi rfl
-    have hlen := path_len (fl := specFlags e.fl) rfl hp
+    obtain ⟨k, k1, k2, hq, hany⟩ := D.jump hm
     have : t - q = k := by omega
     rw [this, ← spinF_zero]
-    exact acc_jump h hop hlo hhi ht hK k 0 q (by omega) (by omega) hp
+    exact acc_jump D hop hlo hhi ht hK k 0 q (by omega) (by omega) hq hany
   | @seq x y _ _ ih1 ih2 =>
     intro a b q t n s hseg hid hm ht hK
     cases hseg with | cat s1 s2 =>
     simp only [IdOK] at hid
     simp only [nsp] at hK
-    obtain ⟨u, m1, m2⟩ := (cat_iff _ _ _ _).1 hm
-    have b1 := Matches.bounds m1
-    have b2 := Matches.bounds m2
-    obtain ⟨u', rfl⟩ : ∃ u', u = e.start + u' := ⟨u - e.start, by omega⟩
+    obtain ⟨u, b1, b2, m1, m2⟩ := D.cat hm
     have hm := s1.len
     rw [← hm] at hid
     have := ih2 s2 hid.2 m2 ht (by rw [Nat.add_assoc]; exact hK)
     have := ih1 s1 hid.1 m1 (by omega) this
-    have e1 : n + (t - u') + (u' - q) = n + (t - q) := by omega
+    have e1 : n + (t - u) + (u - q) = n + (t - q) := by omega
     rw [← e1]; exact this
   | @alt x y _ _ hdx ih1 ih2 =>
     intro a b q t n s hseg hid hm ht hK
@@ -502,9 +465,8 @@ theorem acc_hex (h : FwdByte e) {r : Re} (hr : HexG r) : ∀ {a b q t n s : Nat}
     obtain ⟨F', l1, b1, ex2, l2, b2, h1, h2, rfl⟩ := c2 hnc
     rw [hid0] at h1
     rw [hoff] at h2
-    cases hm with
-    | altL hmx =>
-      -- the continuation of the first branch: JUMP to the end
+    rcases D.alt hm with hmx | hmy
+    · -- the continuation of the first branch: JUMP to the end
       have hKm : AccE e (s + 1 + nsp x) n { ip := m } t := by
         intro F2 ex2' l' a' ex'' hex2 hs2
         obtain ⟨F3, hs3⟩ := sync_jump_inv hj hs2
@@ -513,8 +475,7 @@ theorem acc_hex (h : FwdByte e) {r : Re} (hr : HexG r) : ∀ {a b q t n s : Nat}
       obtain ⟨g, hg, hacc⟩ := ih1 sx hidx hmx ht hKm F' (s :: ex) l1 b1 ex2
         (fun i hi => by rcases List.mem_cons.1 hi with rfl | hi'; omega; have := hex i hi'; omega) h1
       exact ⟨g, List.mem_append_left _ hg, hacc⟩
-    | altR hmy =>
-      have hfr := sync_fresh hdx sx hidx h1
+    · have hfr := sync_fresh hdx sx hidx h1
       obtain ⟨g, hg, hacc⟩ := ih2 sy hidy hmy ht (by rw [show s + 1 + nsp x + nsp y = s + (1 + nsp x + nsp y) by omega]; exact hK)
         F' ex2 l2 b2 ex' (fun i hi => by
           rcases hfr i hi with k | k
@@ -523,7 +484,188 @@ theorem acc_hex (h : FwdByte e) {r : Re} (hr : HexG r) : ∀ {a b q t n s : Nat}
             · have := hex i k'; omega
           · omega) h2
       exact ⟨g, List.mem_append_right _ hg, hacc⟩
+
+/-- the run of the code emitted for `r'` (forward emission of `r'`, then MATCH) reports every `M`-match from 0 -/
+theorem complete_of_cdir (D : CDir e) (r' : Re) (hr : HexG r') (hsz : (emit false r' 0).1.length < 32000) (hid : (emit false r' 0).2 ≤ 256)
+    (hcode : e.code = ((emit false r' 0).1 ++ [0xAD]).toArray) (hentry : e.entry = 0)
+    (hx : e.fl.exhaustive = true) (hsc : e.fl.scan = false) (m : Int) (c : List Nat) (h : exec e = .done m c)
+    (L : Nat) (hL : L ≤ e.maxBytes) (hm : D.M r' 0 L) : L ∈ c := by
+  have hwf := hr.hexAst.wf
+  rw [emit_len hwf] at hsz
+  rw [emit_ids hr.hexAst] at hid
+  have hsub : Sub e.code 0 ((emit false r' 0).1 ++ [0xAD]) := by rw [hcode]; exact sub_whole _
+  obtain ⟨h1, h2⟩ := sub_append hsub
+  have hseg : Seg e.code (lower r') 0 (clen (lower r')) := by
+    have := seg_of_emit hwf 0 e.code 0 hsz h1
+    simpa using this
+  have hids : IdOK e.code r' 0 0 := idOK_of_emit hr.hexAst 0 e.code 0 hid h1
+  have hmatch : u8 e.code (clen (lower r')) = OP_MATCH := by
+    have := h2 0 (by simp)
+    rw [emit_len hwf] at this
+    simp at this
+    rw [this]; rfl
+  have hend : AccE e (0 + nsp r') 0 { ip := clen (lower r') } L := by
+    intro F ex l a ex' _ hs
+    have := (sync_plain_inv (f := { ip := clen (lower r') }) (by rw [show u8 e.code ({ ip := clen (lower r') } : Fiber).ip = OP_MATCH from hmatch]; unfold isCtl; decide)
+      (by rw [show u8 e.code ({ ip := clen (lower r') } : Fiber).ip = OP_MATCH from hmatch]; decide) hs).1
+    subst this
+    exact ⟨_, List.mem_singleton.2 rfl, hmatch⟩
+  have hacc : AccU e (0 + (L - 0)) { ip := e.entry } 0 := by rw [hentry]; exact (acc_hex D hr hseg hids hm hL hend).top
+  have := exec_complete e hx hsc m c h _ hacc
+  rw [D.cs1] at this
+  simpa using this
 end
+
+/-! ### the two ways of reading the input -/
+theorem path_pointwise {fl : Flags} (hw : fl.wide = false) {buf : Bytes} {t : UInt8 → Bool} : ∀ {j p q : Nat}, Path (step fl buf t) j p q →
+    q = p + j ∧ ∀ i, i < j → charOk fl buf t (p + i) = true
+  | _, _, _, .nil => ⟨rfl, fun i hi => absurd hi (Nat.not_lt_zero _)⟩
+  | _, p, _, .cons (k := j) hy hp => by
+    obtain ⟨h0, h1⟩ := mem_step.1 hy
+    obtain ⟨h2, h3⟩ := path_pointwise hw hp
+    have hcs : fl.cs = 1 := by simp [Flags.cs, hw]
+    refine ⟨by omega, fun i hi => ?_⟩
+    cases i with
+    | zero => exact h0
+    | succ i =>
+      have := h3 i (by omega)
+      rw [h1, hcs] at this
+      rwa [show p + (i + 1) = p + 1 + i by omega]
+
+/-- one byte-like token at the byte the fiber reads -/
+theorem hexleaf_consume {e : Env} (hcs : e.cs = 1) {r : Re} (hl : HexG r) {a : Nat} (hc : LeafCode e.code r a) {f : Fiber} (hip : f.ip = a)
+    {bm P Q : Nat} (hm : Re.Matches (specFlags e.fl) e.buf r P Q) :
+    Q = P + 1 ∧ (e.inp bm = (P : Int) → bm < e.maxBytes → consumeOk e bm f = true) := by
+  have hq := (ends_iff_Matches _ _ _ _ _).2 hm
+  subst hip
+  cases hl with
+  | byte c =>
+    cases hc with | lit hop harg =>
+    obtain ⟨hch, hq⟩ := mem_step.1 hq
+    exact ⟨hq, fun hinp hlt => consume_of_charOk hcs hinp hlt hch (test_lit hop harg _)⟩
+  | wild =>
+    cases hc with | any hop =>
+    obtain ⟨hch, hq⟩ := mem_step.1 hq
+    exact ⟨hq, fun hinp hlt => consume_of_charOk hcs hinp hlt hch (test_anyop (.inl hop) _)⟩
+  | mask v m =>
+    cases hc with | masked hop h1 h2 =>
+    obtain ⟨hch, hq⟩ := mem_step.1 hq
+    exact ⟨hq, fun hinp hlt => consume_of_charOk hcs hinp hlt hch (test_masked hop h1 h2 _)⟩
+  | notByte c =>
+    cases hc with | notLit hop harg =>
+    obtain ⟨hch, hq⟩ := mem_step.1 hq
+    exact ⟨hq, fun hinp hlt => consume_of_charOk hcs hinp hlt hch (test_notLit hop harg _)⟩
+  | notMask v m =>
+    cases hc with | maskedNot hop h1 h2 =>
+    obtain ⟨hch, hq⟩ := mem_step.1 hq
+    exact ⟨hq, fun hinp hlt => consume_of_charOk hcs hinp hlt hch (test_maskedNot hop h1 h2 _)⟩
+  | jump _ _ _ _ => cases hc
+  | seq _ _ => cases hc
+  | alt _ _ _ => cases hc
+
+theorem any_consume {e : Env} (hcs : e.cs = 1) {f : Fiber}
+    (hop : u8 e.code f.ip = OP_REPEAT_ANY_GREEDY ∨ u8 e.code f.ip = OP_REPEAT_ANY_UNGREEDY)
+    {bm P Q : Nat} (hm : Re.Matches (specFlags e.fl) e.buf .any P Q) :
+    Q = P + 1 ∧ (e.inp bm = (P : Int) → bm < e.maxBytes → consumeOk e bm f = true) := by
+  have hq := (ends_iff_Matches _ _ _ _ _).2 hm
+  obtain ⟨hch, hq⟩ := mem_step.1 hq
+  exact ⟨hq, fun hinp hlt => consume_of_charOk hcs hinp hlt hch (test_anyop (.inr hop) _)⟩
+
+theorem any_of_charOk {fl : Flags} (hw : fl.cs = 1) {buf : Bytes} {P : Nat} (h : charOk fl buf (testAny fl) P = true) :
+    Re.Matches fl buf .any P (P + 1) := by
+  have := Re.Matches.any (fl := fl) (buf := buf) h
+  rwa [hw] at this
+
+/-- reading forwards from the start position -/
+def fwdC (e : Env) (h : FwdByte e) : CDir e where
+  M r q t := Re.Matches (specFlags e.fl) e.buf r (e.start + q) (e.start + t)
+  cs1 := cs_one h
+  leaf := by
+    intro r a q t f hl hc hip hm ht
+    obtain ⟨h1, h2⟩ := hexleaf_consume (cs_one h) hl hc hip (bm := q) hm
+    have : t = q + 1 := by omega
+    exact ⟨this, h2 (inp_fwd h q) (by omega)⟩
+  any := by
+    intro q t f hop hm ht
+    obtain ⟨h1, h2⟩ := any_consume (cs_one h) hop (bm := q) hm
+    have : t = q + 1 := by omega
+    exact ⟨this, h2 (inp_fwd h q) (by omega)⟩
+  jump := by
+    intro lo hi g q t hm
+    obtain ⟨k, k1, k2, hp⟩ := path_of_rangeAny hm lo hi rfl
+    obtain ⟨p1, p2⟩ := path_pointwise (fl := specFlags e.fl) rfl hp
+    refine ⟨k, k1, k2, by omega, fun i hi => ?_⟩
+    have := any_of_charOk (fl := specFlags e.fl) rfl (p2 i hi)
+    rw [show e.start + (q + i) = e.start + q + i by omega, show e.start + (q + i + 1) = e.start + q + i + 1 by omega]
+    exact this
+  cat := by
+    intro x y q t hm
+    obtain ⟨u, m1, m2⟩ := (cat_iff _ _ _ _).1 hm
+    have b1 := Matches.bounds m1
+    have b2 := Matches.bounds m2
+    obtain ⟨u', rfl⟩ : ∃ u', u = e.start + u' := ⟨u - e.start, by omega⟩
+    exact ⟨u', by omega, by omega, m1, m2⟩
+  alt := by
+    intro x y q t hm
+    cases hm with
+    | altL h1 => exact .inl h1
+    | altR h1 => exact .inr h1
+
+theorem rev_rev (r : Re) : rev (rev r) = r := by
+  induction r <;> simp [rev, *]
+
+theorem rev_leaf {code : Code} {r : Re} {a : Nat} (hc : LeafCode code r a) : rev r = r := by
+  cases hc <;> rfl
+
+/-- reading backwards from the start position: the code is the forward emission of the mirrored pattern -/
+def bwdC (e : Env) (h : BwdByte e) : CDir e where
+  M r q t := q ≤ t ∧ t ≤ e.start ∧ Re.Matches (specFlags e.fl) e.buf (rev r) (e.start - t) (e.start - q)
+  cs1 := cs_one_b h
+  leaf := by
+    intro r a q t f hl hc hip hm ht
+    obtain ⟨hqt0, hts, hm⟩ := hm
+    rw [rev_leaf hc] at hm
+    obtain ⟨h1, h2⟩ := hexleaf_consume (cs_one_b h) hl hc hip (bm := q) hm
+    have ht' : t = q + 1 := by omega
+    refine ⟨ht', h2 ?_ (by omega)⟩
+    rw [inp_bwd h (by omega)]
+    congr 1; omega
+  any := by
+    intro q t f hop hm ht
+    obtain ⟨hqt0, hts, hm⟩ := hm
+    obtain ⟨h1, h2⟩ := any_consume (cs_one_b h) hop (bm := q) hm
+    have ht' : t = q + 1 := by omega
+    refine ⟨ht', h2 ?_ (by omega)⟩
+    rw [inp_bwd h (by omega)]
+    congr 1; omega
+  jump := by
+    intro lo hi g q t hm
+    obtain ⟨hqt0, hts, hm⟩ := hm
+    have b0 := Matches.bounds hm
+    obtain ⟨k, k1, k2, hp⟩ := path_of_rangeAny hm lo hi rfl
+    obtain ⟨p1, p2⟩ := path_pointwise (fl := specFlags e.fl) rfl hp
+    have hqt : t = q + k := by omega
+    refine ⟨k, k1, k2, hqt, fun i hi => ⟨by omega, by omega, ?_⟩⟩
+    have := any_of_charOk (fl := specFlags e.fl) rfl (p2 (k - 1 - i) (by omega))
+    rw [show e.start - t + (k - 1 - i) = e.start - (q + i + 1) by omega,
+      show e.start - (q + i + 1) + 1 = e.start - (q + i) by omega] at this
+    exact this
+  cat := by
+    intro x y q t hm
+    obtain ⟨hqt0, hts, hm⟩ := hm
+    obtain ⟨u, m1, m2⟩ := (cat_iff _ _ _ _).1 hm
+    have b1 := Matches.bounds m1
+    have b2 := Matches.bounds m2
+    have hs := h.startIn
+    refine ⟨e.start - u, by omega, by omega, ⟨by omega, by omega, ?_⟩, ⟨by omega, hts, ?_⟩⟩
+    · rw [show e.start - (e.start - u) = u by omega]; exact m2
+    · rw [show e.start - (e.start - u) = u by omega]; exact m1
+  alt := by
+    intro x y q t hm
+    obtain ⟨hqt0, hts, hm⟩ := hm
+    cases hm with
+    | altL h1 => exact .inl ⟨hqt0, hts, h1⟩
+    | altR h1 => exact .inr ⟨hqt0, hts, h1⟩
 
 /-- completeness of the VM on the forward code of a hex pattern (byte mode, exhaustive, string verification): if the run
     returns without error, it reports the length of EVERY match of the pattern at the start position that lies within
@@ -534,40 +676,30 @@ theorem vm_complete_fwd (r : Re) (hr : HexG r) (hsz : (emit false r 0).1.length 
     (fuel : Nat) (m : Int) (c : List Nat)
     (h : exec { code := (emitCode false r).toArray, entry := 0, buf := buf, start := start, fl := fl, syncFuel := fuel } = .done m c)
     (L : Nat) (hL : L ≤ 1024) (hm : Re.Matches (specFlags fl) buf r start (start + L)) : L ∈ c := by
-  have hwf := hr.hexAst.wf
-  obtain ⟨e, he⟩ : ∃ e : Env, e = envOf r buf start fl fuel := ⟨_, rfl⟩
-  change exec (envOf r buf start fl fuel) = _ at h
+  obtain ⟨e, he⟩ : ∃ e : Env, e = { code := (emitCode false r).toArray, entry := 0, buf := buf, start := start, fl := fl, syncFuel := fuel } := ⟨_, rfl⟩
   rw [← he] at h
-  rw [emit_len hwf] at hsz
-  rw [emit_ids hr.hexAst] at hid
   have hfb : FwdByte e := by subst he; exact ⟨hw, hb, hst⟩
-  have hsub : Sub e.code 0 ((emit false r 0).1 ++ [0xAD]) := by subst he; exact sub_whole _
-  obtain ⟨h1, h2⟩ := sub_append hsub
-  have hseg : Seg e.code (lower r) 0 (clen (lower r)) := by
-    have := seg_of_emit hwf 0 e.code 0 hsz h1
-    simpa using this
-  have hids : IdOK e.code r 0 0 := idOK_of_emit hr.hexAst 0 e.code 0 hid h1
-  have hmatch : u8 e.code (clen (lower r)) = OP_MATCH := by
-    have := h2 0 (by simp)
-    rw [emit_len hwf] at this
-    simp at this
-    rw [this]; rfl
-  have hentry : e.entry = 0 := by subst he; rfl
-  have hbuf : e.buf = buf := by subst he; rfl
-  have hstart : e.start = start := by subst he; rfl
-  have hfl : e.fl = fl := by subst he; rfl
   have hb := Matches.bounds hm
-  have hmax : L ≤ e.maxBytes := by rw [maxBytes_fwd hfb, hbuf, hstart]; omega
-  have hend : AccE e (0 + nsp r) 0 { ip := clen (lower r) } L := by
-    intro F ex l a ex' _ hs
-    have := (sync_plain_inv (f := { ip := clen (lower r) }) (by rw [show u8 e.code ({ ip := clen (lower r) } : Fiber).ip = OP_MATCH from hmatch]; unfold isCtl; decide)
-      (by rw [show u8 e.code ({ ip := clen (lower r) } : Fiber).ip = OP_MATCH from hmatch]; decide) hs).1
-    subst this
-    exact ⟨_, List.mem_singleton.2 rfl, hmatch⟩
-  have hm' : Re.Matches (specFlags e.fl) e.buf r (e.start + 0) (e.start + L) := by rw [hbuf, hstart, hfl]; exact hm
-  have hacc : AccU e (0 + (L - 0)) { ip := e.entry } 0 := by rw [hentry]; exact (acc_hex hfb hr hseg hids hm' hmax hend).top
-  have := exec_complete e (by rw [hfl]; exact hx) (by rw [hfl]; exact hsc) m c h _ hacc
-  rw [cs_one hfb] at this
-  simpa using this
+  have hmax : L ≤ e.maxBytes := by rw [maxBytes_fwd hfb]; subst he; show L ≤ min (buf.size - start) 1024; omega
+  exact complete_of_cdir (fwdC e hfb) r hr hsz hid (by subst he; rfl) (by subst he; rfl) (by subst he; exact hx) (by subst he; exact hsc)
+    m c h L hmax (by subst he; exact hm)
+
+/-- the same for the BACKWARD code (EMIT_BACKWARDS, run with RE_FLAGS_BACKWARDS): every match of the pattern that ENDS at the
+    start position and is at most 1024 bytes long has its length reported.  The mirrored pattern has to be of the grammar's
+    shape (every first branch of an alternative of `rev r` begins with a byte-like token: the branch of `r` ends with one). -/
+theorem vm_complete_bwd (r : Re) (hr : HexG (rev r)) (hsz : (emit true r 0).1.length < 32000) (hid : (emit true r 0).2 ≤ 256)
+    (buf : Bytes) (start : Nat) (hst : start ≤ buf.size)
+    (fl : VmFlags) (hw : fl.wide = false) (hb : fl.backwards = true) (hsc : fl.scan = false) (hx : fl.exhaustive = true)
+    (fuel : Nat) (m : Int) (c : List Nat)
+    (h : exec { code := (emitCode true r).toArray, entry := 0, buf := buf, start := start, fl := fl, syncFuel := fuel } = .done m c)
+    (L : Nat) (hL : L ≤ 1024) (hLs : L ≤ start) (hm : Re.Matches (specFlags fl) buf r (start - L) start) : L ∈ c := by
+  obtain ⟨e, he⟩ : ∃ e : Env, e = { code := (emitCode true r).toArray, entry := 0, buf := buf, start := start, fl := fl, syncFuel := fuel } := ⟨_, rfl⟩
+  rw [← he] at h
+  have hbb : BwdByte e := by subst he; exact ⟨hw, hb, hst⟩
+  have hmax : L ≤ e.maxBytes := by rw [maxBytes_bwd hbb]; subst he; show L ≤ min start 1024; omega
+  rw [emit_rev] at hsz hid
+  have hcode : e.code = ((emit false (rev r) 0).1 ++ [0xAD]).toArray := by subst he; simp only [emitCode, emit_rev]
+  exact complete_of_cdir (bwdC e hbb) (rev r) hr hsz hid hcode (by subst he; rfl) (by subst he; exact hx) (by subst he; exact hsc)
+    m c h L hmax ⟨Nat.zero_le _, by subst he; exact hLs, by subst he; rw [rev_rev]; exact hm⟩
 
 end YaraModel.ReEmit
